@@ -1031,6 +1031,10 @@ impl RangeKey for RecordIdentifier {
 }
 
 fn system_time_now() -> u64 {
+    #[cfg(iroh_docs_verif)]
+    if let Some(t) = crate::verif::clock() {
+        return t;
+    }
     SystemTime::now()
         .duration_since(SystemTime::UNIX_EPOCH)
         .expect("time drift")
